@@ -79,7 +79,7 @@ def main():
             {"name": "apalache-inductive", "path": "engine/flow.py", "serves_properties": ["C03", "C04"], "kind_free_text": "Apalache discharges the inductive invariant of spec/FlowAbs.tla for all A, P, N; TLC (TraceFlow.tla) validates recorded traces as FlowAbs behaviours"},
         ],
         "checks": checks,
-        "notes": "fix: commits in /repo (10, D1-D10) are listed in known_findings.json (status fixed). Open known findings: KF-C05-1, KF-C12-1. Seeded changes and refactors used to evaluate the checks: seeded/, refactors/ (DESIGN.md section 10).",
+        "notes": "fix: commits in /repo (11, D1-D11) are listed in known_findings.json (status fixed). Open known findings: KF-C05-1, KF-C12-1. Seeded changes and refactors used to evaluate the checks: seeded/, refactors/ (DESIGN.md section 10).",
         "not_applicable": [{"property_id": k, "reason": v} for k, v in sorted(PENDING.items()) if k not in CHECKS],
     }
     json.dump(man, open(os.path.join(ROOT, "MANIFEST.json"), "w"), indent=1)
